@@ -119,7 +119,8 @@ class PtgCheck(Check):
         return fails
 
     def workdir(self, tag, i):
-        return os.path.join(vcheck.WORK, "ptg" + vcheck._SFX, "%s-%s-%d" % (self.id, tag, self.seed), "c%03d" % i)
+        # the pid keeps concurrent runs of the same check and seed apart
+        return os.path.join(vcheck.WORK, "ptg" + vcheck._SFX, "%s-%s-%d-p%d" % (self.id, tag, self.seed, os.getpid()), "c%03d" % i)
 
     # ---- one generated program: JDF -> ptgpp -> cc -> run per configuration
     def build_case(self, wd, prog):
@@ -198,6 +199,10 @@ class PtgCheck(Check):
                     out[i] = f.result()
                 except Exception as exn:
                     out[i] = "<impl exception %s>" % exn
+        try:
+            os.rmdir(os.path.dirname(self.workdir(tag, 0)))     # only when every case was cleaned up
+        except OSError:
+            pass
         return (out + ["<impl missing>"] * n)[:n]
 
     # ---- generation helpers
